@@ -138,6 +138,13 @@ def make_int_unops():
     return ents
 
 
+def _rshift_reuse(k):
+    x = k.S("x")
+    g = k.S("g")
+    k.rt.guarded(g)(lambda: x >> 2)()
+    return x >> 1
+
+
 def _bits_twice(k, w):
     x = k.S("x")
     x.to_bits(w)
@@ -192,6 +199,9 @@ def make_widths(n):
     ents.append(Entry("int_to_bits_narrow_after_wide", lambda k: _bits_wide_narrow(k, n + 1, 2), ("x",),
                       ref=lambda k: [(k.v("x") >> i) & 1 for i in range(2)],
                       dom=lambda k: nonneg_bits(k.v("x"), 2), tags={"int", "bits", "to_bits", "reuse"}))
+    ents.append(Entry("int_rshift_after_guarded_rshift", lambda k: _rshift_reuse(k), ("x", "g"),
+                      ref=lambda k: k.v("x") >> 1, dom=lambda k: nonneg_bits(k.v("x"), k.n),
+                      assume=lambda k: [(k.v("g") == 0) | (k.v("g") == 1)], tags={"int", "bits", "rshift", "reuse"}))
     ents.append(Entry("int_to_bits_default", lambda k: k.S("x").to_bits(), ("x",),
                       ref=lambda k: [(k.v("x") >> i) & 1 for i in range(k.n)],
                       dom=lambda k: nonneg_bits(k.v("x"), k.n), tags={"int", "bits", "to_bits"}))
